@@ -19,6 +19,7 @@ type Ctx struct {
 	R    *Report
 	Tier string
 	V    *Vocab
+	bw   *bwState
 }
 
 // fn resolves an anchor function or records UNRESOLVED-ANCHOR.
